@@ -29,7 +29,8 @@ def in_scope(t):
         # sub-workflows and with-items combined with another policy are not
         if d['kind'] != 'action':
             return False
-        if d['items'] >= 0 and (d['retry'] or d['waitBefore'] or d['waitAfter'] or d['timeout'] or d['pauseBefore'] or d['failOn']):
+        # (with-items x retry is in; with-items x the other policies is not)
+        if d['items'] >= 0 and (d['waitBefore'] or d['waitAfter'] or d['timeout'] or d['pauseBefore'] or d['failOn']):
             return False
     # a task name must not be instantiated twice (e.g. the same target named by on-success and on-complete)
     last = t['steps'][-1]['obs']
